@@ -214,3 +214,21 @@ Proof. vm_compute. reflexivity. Qed.
 
 Lemma sweep_size : List.length req_seqs = 28 /\ List.length edits = 7 /\ List.length env_schedules = 4.
 Proof. vm_compute. auto. Qed.
+
+(** * the collection level a directly requested call gets *)
+From InvokeVerif Require Import Spec.C17Spec Proofs.C17_path.
+
+Lemma named_call_level ns fs c0 n t cfgs :
+  ns_wf ns = true -> ns_canon ns = true ->
+  ref_path ns (segs_of n) = Some (t, cfgs) -> all_compatible cfgs = true ->
+  exists d,
+    configuration ns n = Ok d /\
+    (forall p, leaf_at p (Node d) = first_some (map (fun g => leaf_at p (Node g)) cfgs)) /\
+    let c1 := fst (step fs c0 (LoadCollection (Node d))) in
+    c_collection c1 = Node d /\ c_mods c1 = c_mods c0 /\ c_dels c1 = c_dels c0.
+Proof.
+  intros Hwf Hcan Href Hall.
+  destruct (path_deep_merge ns n t cfgs Hwf Hcan Href Hall) as [d [Hd [_ Hp]]].
+  exists d. unfold configuration. rewrite Hd. split; [reflexivity|]. split; [exact Hp|].
+  destruct (load_collection_effect fs c0 (Node d)) as [H1 [H2 [H3 _]]]. auto.
+Qed.
